@@ -77,3 +77,9 @@ Definition emits_contiguous {S O} (r : option (S * list (blk O))) (h : hdr) (s :
 (* added for the widened statements (chunkings that contain zero-length chunks) *)
 Definition is_empty {A} (d : list A) : bool := match d with [] => true | _ => false end.
 Definition drop_empty {A} (ds : list (list A)) : list (list A) := filter (fun d => negb (is_empty d)) ds.
+(* a stream of Events chunks in which a chunk may span zero samples (lo <= e_hi instead of lo < e_hi) *)
+Fixpoint ev_stream_any (lo : Z) (cs : list events) : Prop :=
+  match cs with
+  | [] => True
+  | c :: t => e_lo c = lo /\ lo <= e_hi c /\ Forall (fun x => lo <= x < e_hi c) (evs c) /\ ev_stream_any (e_hi c) t
+  end.
